@@ -395,7 +395,13 @@ func (pr *preader) readPath(P string) {
 		if fail != nil && fail.cyclic {
 			hf = fail
 		}
-		if pr.judgeErr("has", fmt.Sprintf("Has(%q)", P), m, hf, err) && err == nil && has != (fail == nil) {
+		entry := "has"
+		if hf != nil && m.finalCyc > 0 {
+			// the cyclic setting on the path fails inside a reference whose own
+			// path meets the cycle at its last step: a class of its own
+			entry = "has:cycle-met-at-last-step-of-a-reference"
+		}
+		if pr.judgeErr(entry, fmt.Sprintf("Has(%q)", P), m, hf, err) && err == nil && has != (fail == nil) {
 			pr.violate("has", "wrong-answer", "Has(%q) = %v, model %v", P, has, fail == nil)
 		}
 		if pr.blocked() {
